@@ -82,7 +82,11 @@ def generate(check, rng, tier, run_index):
         else:
             ops.append({'op': 'read', 'p': p, 'how': rng.choice(['load', 'load_frame', 'iterload', 'open_read', 'load_topology', 'cursor'])})
     return {'check': check, 'paths': paths, 'ops': ops, 'seed': rng.below(1 << 30), 'relative': rng.chance(0.3),
-            'pathobj': rng.chance(0.25)}      # paths handed over as pathlib.Path objects instead of strings
+            'pathobj': rng.chance(0.25),      # paths handed over as pathlib.Path objects instead of strings
+            'hide_netcdf4': rng.chance(0.25),
+            # the name is reached through a symbolic link to a directory and '..' (dir/../name): the kernel resolves that to the
+            # link target's parent, textual normalisation (os.path.abspath / normpath) to somewhere else
+            'dotdot': rng.chance(0.15)}
 
 
 # ------------------------------------------------------------------ tree model
@@ -148,7 +152,8 @@ def _targets(path, ext, n_frames):
 
 def _under(root, snap, path):
     """snapshot keys at or under path"""
-    rel = os.path.relpath(path, root)
+    path = os.path.join(os.path.realpath(os.path.dirname(path) or '.'), os.path.basename(path))      # as the kernel resolves it
+    rel = os.path.relpath(path, os.path.realpath(root))
     return [k for k in snap if k == rel or k.startswith(rel + os.sep)]
 
 
@@ -190,10 +195,23 @@ def _same_as_fresh(root, fresh_root, rels_pairs):
 
 
 def execute(check, case, workdir):
+    import sys
     cwd = os.getcwd()
+    hide = bool(case.get('hide_netcdf4'))
+    saved = sys.modules.get('netCDF4', 'absent')
+    if hide:
+        sys.modules['netCDF4'] = None        # an installation without the optional netCDF4 package: mdtraj falls back to scipy.io
     try:
-        return _execute(check, case, workdir)
+        res = _execute(check, case, workdir)
+        if hide:
+            res.probe('netcdf_scipy_backend')
+        return res
     finally:
+        if hide:
+            if saved == 'absent':
+                sys.modules.pop('netCDF4', None)
+            else:
+                sys.modules['netCDF4'] = saved
         os.chdir(cwd)
 
 
@@ -211,13 +229,19 @@ def _execute(check, case, workdir):
         os.chdir(root)
         pathroot = ''
         res.probe('relative_paths')
+    dirpart = pathroot
+    if case.get('dotdot'):
+        os.makedirs(os.path.join(root, '_deep', 'inner'))
+        os.symlink(os.path.join('_deep', 'inner'), os.path.join(root, '_lnk'))
+        dirpart = os.path.join(pathroot, '_lnk', '..')           # = root/_deep for the kernel, root for os.path.normpath
+        res.probe('path_through_linked_directory_and_dotdot')
     top = fmts.make_topology(N_ATOMS)
     state = {}     # path index -> {'valid': bool, 'n': frames}  (what the model believes is at the path)
     link_store = {}  # path index -> the file a symbolic link at the path points to (part of "the existing file", also when overwritten)
 
     # ---- pre-existing entries
     for k, ent in enumerate(case['paths']):
-        p = os.path.join(pathroot, ent['name'])
+        p = os.path.join(dirpart, ent['name'])
         ext = ent['ext']
         st = {'valid': False, 'n': 0}
         if ent['pre'] in ('valid_short', 'valid_long'):
@@ -260,7 +284,7 @@ def _execute(check, case, workdir):
             else:
                 with open(p, 'wb') as f:
                     f.write((b'unrelated bytes \x00\x01\x02 ' * 40)[: 100 + 37 * k])
-        if ent.get('link') and os.path.lexists(p) and not os.path.isdir(p):
+        if ent.get('link') and not case.get('dotdot') and os.path.lexists(p) and not os.path.isdir(p):
             store = os.path.join(pathroot, '_store')
             os.makedirs(store, exist_ok=True)
             os.rename(p, os.path.join(store, ent['name']))
@@ -279,7 +303,7 @@ def _execute(check, case, workdir):
         res.steps += 1
         ent = case['paths'][op['p']]
         ext = ent['ext']
-        p = os.path.join(pathroot, ent['name'])
+        p = os.path.join(dirpart, ent['name'])
         # what the library is given: the string, or a pathlib.Path (the compiled file classes take strings only, so
         # md.open keeps the string for them)
         pa = pathlib.Path(p) if case.get('pathobj') else p
